@@ -8,6 +8,7 @@ import CircuitModel.Conc.RC
 import CircuitModel.Conc.Gauge
 import CircuitModel.Conc.Trans
 import CircuitModel.Conc.TC
+import CircuitModel.Conc.Mgr
 import CircuitModel.Basic
 namespace CM
 open Conc
@@ -324,5 +325,77 @@ def suiteTrTC (kvs : List (String × String)) (lines : List (String × String)) 
   let locals : List Conc.TC.Local := jobs.mapIdx fun i j => if i == k then { job := j, pc := .done none } else { job := j }
   let st : TrTC.St := { c := { shared := s2, locals := locals }, timerTid := k, fired := if preFired then 1 else 0, cur := none }
   (TrTC.conform st (lines.map (·.1))).map fun r => r ++ "\t-"
+
+end CM
+
+/-! ### mgr -/
+namespace CM
+open Conc
+namespace TrMgr
+open Conc.Mgr CM.Mgr
+
+/-- creator thread of the model circuit with this id (from the linearisation log) -/
+def creatorOf (log : List (Nat × Op × Out)) (cid : Nat) : Option Nat :=
+  (log.find? fun e => match e.2.2 with | .created c => c.id == cid | _ => false).map (·.1)
+
+def fmtResult (log : List (Nat × Op × Out)) : Out → String
+  | .created _ => "created"
+  | .exists_ => "exists"
+  | .got none => "got nil"
+  | .got (some c) => "got " ++ (match creatorOf log c.id with | some t => toString t | none => "unknown")
+  | .all ids => "all " ++ ",".intercalate ((sortNat (ids.filterMap (creatorOf log))).map toString)
+  | .bound _ => "bound"
+
+/-- run the body silently right after the acquisition (bodies are not trace steps) -/
+def afterAcquire (c : Config Shared Local) (i : Nat) : Config Shared Local :=
+  match c.locals[i]? with
+  | some l => (match l.pc with
+      | .locked => (match step i c.shared l with
+          | some (s', l') => { shared := s', locals := c.locals.set i l' }
+          | none => c)
+      | _ => c)
+  | none => c
+
+def conform (ignoreResult : Nat → Bool) (c : Config Shared Local) : List String → List String
+  | [] => []
+  | line :: rest =>
+    match line.splitOn " " with
+    | ["R", iS, kind] | ["R", iS, kind, _] =>
+      let body := " ".intercalate ((line.splitOn " ").drop 2)
+      let _ := kind
+      (match iS.toNat? with
+       | none => "bad-line" :: conform ignoreResult c rest
+       | some i =>
+         if ignoreResult i then "skip" :: conform ignoreResult c rest else
+         match result c i with
+         | none => s!"MISMATCH thread {i} returned [{body}] but has not returned in the model" :: conform ignoreResult c rest
+         | some o =>
+           let e := fmtResult c.shared.log o
+           if e == body || (e == "all " && body == "all") then "ok" :: conform ignoreResult c rest
+           else s!"MISMATCH thread {i}: the model (bodies in lock order) returns [{e}], the code returned [{body}]" :: conform ignoreResult c rest)
+    | [tidS, act, "mgr.mu"] =>
+      (match tidS.toNat?, c.locals[tidS.toNat?.getD 0]? with
+       | some tid, some l =>
+         let want : Option String := match l.pc with
+           | .begin => some (if isWriter l.job then "lock" else "rlock")
+           | .ran _ => some (if isWriter l.job then "unlock" else "runlock")
+           | _ => none
+         if want != some act then s!"MISMATCH thread {tid}: model expects [{want.getD "nothing"} mgr.mu] code did [{act} mgr.mu]" :: conform ignoreResult c rest
+         else match step tid c.shared l with
+           | some (s', l') => "ok" :: conform ignoreResult (afterAcquire { shared := s', locals := c.locals.set tid l' } tid) rest
+           | none => s!"MISMATCH thread {tid}: [{act} mgr.mu] is not enabled in the model (lock held)" :: conform ignoreResult c rest
+       | _, _ => "bad-line" :: conform ignoreResult c rest)
+    | _ => "skip" :: conform ignoreResult c rest
+
+end TrMgr
+
+/-- header of the `mgr` scenario: ops=<c|o|g|a|v...> sf=(0|1) -/
+def suiteTrMgr (kvs : List (String × String)) (lines : List (String × String)) : List String :=
+  let ops := ((kvGet kvs "ops").getD "").toList
+  let jobs : List Mgr.Op := ops.mapIdx fun i ch =>
+    if ch == 'c' then .create "x" [] else if ch == 'o' then .create s!"other{i}" [] else if ch == 'g' then .get "x" else .all
+  let ignore : Nat → Bool := fun i => match ops[i]? with | some 'v' => true | _ => false
+  let st : Mgr.State := { ctors := if kvNat kvs "sf" 0 == 1 then [.statFactory] else [] }
+  (TrMgr.conform ignore (Conc.Mgr.init st jobs) (lines.map (·.1))).map fun r => r ++ "\t-"
 
 end CM
